@@ -14,7 +14,10 @@ for d in sorted(os.listdir(os.path.join(V, "seeded"))):
         # first meaningful paragraph of the author's README
         paras = [p.strip().replace("\n", " ") for p in re.split(r"\n\s*\n", txt) if p.strip() and not p.strip().startswith("#")]
         needs = (paras[0] if paras else "")[:260]
-    rows.append("| `seeded/%s` | %s | %s | %s |" % (d, m["property"], needs.replace("|", "/"), m.get("check_verdict", "").replace("|", "/")))
+    verdict = m.get("check_verdict", "")
+    if m.get("current_verdict"):
+        verdict += " **Now:** " + m["current_verdict"] + "."
+    rows.append("| `seeded/%s` | %s | %s | %s |" % (d, m["property"], needs.replace("|", "/"), verdict.replace("|", "/")))
 table = "| change | property | what it is / what it needs to manifest (author's words, abridged) | verdict of `bin/check` (quick tier, via `bin/mutcheck`) |\n|---|---|---|---|\n" + "\n".join(rows) + "\n"
 p = os.path.join(V, "DESIGN.md")
 s = open(p).read()
